@@ -60,6 +60,8 @@ ASSUMPTIONS = [
     "variables of a <%call> body (its args=, its loop variables) are not visible to the defs of the same <%call> "
     "(they are siblings of body(), as documented); nested defs read def parameters of enclosing defs only",
     "argument evaluation order and exceptions are C13's business: crash point -1 plus a few crash points per set",
+    "template sets whose reference render visits more than 30000 nodes (nested loops x repeated caller.body()) are "
+    "skipped and counted (branch generator:too-expensive-to-render)",
 ]
 TRUSTED_EXTRA = ["C05: harness/c05_gen.py (generator, quirk feature tests), harness/c05_surface.py (surface styles, "
                  "instrumentation), harness/c05_rt.py (probe), harness/c05_rich.py (rich signatures: expected values "
@@ -115,10 +117,35 @@ class Impl(C13.Impl):
     def sources(self):
         return [m[0] for m in self.metas]
 
+    def run(self, k, mode):
+        try:
+            return C13.Impl.run(self, k, mode)
+        except RecursionError:
+            # the grammar has no recursion: only a broken `caller` can make a template call itself for ever
+            return {"res": "exc:recursion", "out": None, "nb": -1, "nf": -1, "nc": -1, "cnt": rt.STATE.cnt,
+                    "same_object": None, "user_out": None}
+
+
+class TooBig(Exception):
+    """the template set renders more than STEP_LIMIT nodes (nested loops x repeated caller.body()): skipped"""
+
+
+STEP_LIMIT = 30000
+
+
+class Ref(RR.Ref):
+    steps = 0
+
+    def node(self, n, env, tmpl):
+        self.steps += 1
+        if self.steps > STEP_LIMIT:
+            raise TooBig()
+        return RR.Ref.node(self, n, env, tmpl)
+
 
 def expected(bodies, k=-1, opts=None):
     opts = opts or {}
-    r = RR.Ref(bodies, k, strict_pending=True, buffer_filters=opts.get("buffer_filters") or ())
+    r = Ref(bodies, k, strict_pending=True, buffer_filters=opts.get("buffer_filters") or ())
     x = r.render()
     res = {"ok": "val", "boom": "exc:0", "error": "exc:other"}[x["outcome"]]
     return {"res": res, "out": x["output"], "cnt": r.cnt}
@@ -136,7 +163,10 @@ def render_site(r, e):
 
 
 def check_render(bodies, style, opts=None, k=-1):
-    impl = Impl(bodies, style, (opts or {}).get("buffer_filters") or ())
+    try:
+        impl = Impl(bodies, style, (opts or {}).get("buffer_filters") or ())
+    except Exception as ex:      # noqa
+        return "template-does-not-compile", {"error": "%s: %s" % (type(ex).__name__, str(ex)[:300])}, None, None, None
     r = impl.run(k, {})
     e = expected(bodies, k, opts)
     site, detail = render_site(r, e)
@@ -179,6 +209,34 @@ def classify(bodies, fails, allow):
     return None, None
 
 
+def shrink(bodies, fails, max_tests):
+    """tree reduction with gen_template.shrinks' candidates; unlike gen_template.shrink_set a successful step does
+    not restart the sweep (candidates before the current position were just seen to be needed), so one pass is
+    linear in the size of the set"""
+    tests = 0
+    pos = 0
+    while tests < max_tests:
+        found = False
+        for j, cand in enumerate(G.shrinks(bodies)):
+            if j < pos:
+                continue
+            tests += 1
+            if tests > max_tests:
+                break
+            try:
+                bad = G.closed(cand) and fails(cand)
+            except Exception:      # noqa
+                bad = False
+            if bad:
+                bodies, pos, found = cand, j, True
+                break
+        if not found:
+            if pos == 0:
+                break
+            pos = 0
+    return bodies
+
+
 class Reporter:
     def __init__(self, ctx):
         self.ctx = ctx
@@ -199,7 +257,7 @@ class Reporter:
 
         def fails(bs):
             # shrinking must not walk into a recorded quirk the original case did not have
-            if set(CG.features(bs)) - set(allow) or not all(CG.loops_ok(b) for b in bs):
+            if set(CG.features(bs)) - set(allow) or not CG.wellformed(bs):
                 return False
             return site_of(bs) == raw_site
 
@@ -215,7 +273,7 @@ class Reporter:
         t0 = time.time()
         small = bodies
         try:
-            small = G.shrink_set(copy.deepcopy(bodies), fails, 220 if ctx.quick else 600)
+            small = shrink(copy.deepcopy(bodies), fails, 300 if ctx.quick else 900)
         except Exception:      # noqa
             small = bodies
         site2, feature2 = classify(small, fails_plain, allow)
@@ -284,6 +342,28 @@ def static_coverage(ctx, bodies):
             ctx.branch("form:" + kk, v)
 
 
+def duplicate_closures(code):
+    """how often a closure def is written more than once into one function of the generated module (defs under
+    control lines / in blocks of a <%call>): no behavioural effect, counted for the evidence"""
+    import ast
+    n = 0
+    def own_defs(stmts, acc):
+        for c in stmts:
+            if isinstance(c, ast.FunctionDef):
+                acc.append(c.name)
+            else:
+                for field in ("body", "orelse", "finalbody"):
+                    own_defs(getattr(c, field, None) or [], acc)
+                for h in getattr(c, "handlers", None) or []:
+                    own_defs(h.body, acc)
+        return acc
+    for fn in ast.walk(ast.parse(code)):
+        if isinstance(fn, ast.FunctionDef):
+            names = [x for x in own_defs(fn.body, []) if x not in ("ccall", "body")]
+            n += len(names) - len(set(names))
+    return n
+
+
 def pick_styles(ctx, n):
     r = ctx.rng
     return [("plain", 0)] + [(m, r.randrange(1 << 30)) for m in r.sample(STYLES, n)]
@@ -296,18 +376,24 @@ def oracle_set(ctx, rep, bodies, tag, s_render, s_ident, opts=None, allow=(), ns
     st_i = ctx.stream(s_ident, "oracle")
     styles = pick_styles(ctx, nstyles)
     bf = (opts or {}).get("buffer_filters") or ()
-    e = None
+    try:
+        e = expected(bodies, -1, opts)
+    except TooBig:
+        ctx.branch("generator:too-expensive-to-render")
+        return
     first = True
     for style in styles:
         try:
             impl = Impl(bodies, style, bf)
-        except Exception as ex:      # noqa - a generator matter, not a verdict
-            ctx.branch("generator:uncompilable:%s:%s" % (style[0], type(ex).__name__))
-            ctx.sample({"uncompilable": repr(ex)[:300], "style": style[0]})
+        except Exception as ex:      # noqa
+            # the generator keeps to what mako compiles (wellformed()): a template of the grammar that does not
+            # compile is a failure of the property's subject, with a replay
+            ctx.branch("uncompilable:%s:%s" % (style[0], type(ex).__name__))
+            st_r["cases"] += 1
+            rep.report(s_render, "template-does-not-compile", bodies, style, opts, "render",
+                       {"error": "%s: %s" % (type(ex).__name__, str(ex)[:300])}, allow)
             continue
         r = impl.run(-1, {})
-        if e is None:
-            e = expected(bodies, -1, opts)
         st_r["cases"] += 1
         ctx.branch("style:" + style[0])
         for k, v in impl.used.items():
@@ -317,6 +403,9 @@ def oracle_set(ctx, rep, bodies, tag, s_render, s_ident, opts=None, allow=(), ns
             rep.report(s_render, site, bodies, style, opts, "render", detail, allow)
         if first:
             first = False
+            dup = sum(duplicate_closures(c) for c in impl.codes())
+            if dup:
+                ctx.branch("closure-written-more-than-once(no-effect)", dup)
             # the public entry point gives the same text
             pub = impl.rerender()
             if pub[0] == "val" and r["res"] == "val" and pub[1] + "|A" != r["out"]:
@@ -493,7 +582,7 @@ def replay(ctx, data):
         d0 = data["first_disagreements"][0]
         case = d0.get("case") or {}
         stream = d0.get("stream") or ""
-    if isinstance(case, dict) and (stream.endswith("attrs") or stream.endswith("sig") or stream.endswith("nsexpr")):
+    if any(t in stream for t in (".attrs", ".sig", ".nsexpr")):      # harness/c05_attrs.py's streams
         from harness import c05_attrs
         return c05_attrs.replay_attrs(ctx, case)
     if isinstance(case, dict) and case.get("rich"):
@@ -508,7 +597,13 @@ def replay(ctx, data):
     opts = case.get("opts") or {}
     k = case.get("k", -1)
     print("surface style:", style, " options:", opts)
-    impl = Impl(bodies, style, opts.get("buffer_filters") or ())
+    try:
+        impl = Impl(bodies, style, opts.get("buffer_filters") or ())
+    except Exception as ex:      # noqa
+        for i, b in enumerate(bodies):
+            print("template %d:\n%s" % (i, SF.to_source(b, "", (style[0], style[1] + i))[0][len(rt.PRELUDE):]))
+        print("property violated: template-does-not-compile: %s: %s" % (type(ex).__name__, ex))
+        return False
     for i, s in enumerate(impl.sources()):
         print("template %d:\n%s" % (i, s[len(rt.PRELUDE):]))
     r = impl.run(k, {})
